@@ -15,8 +15,10 @@ from pydbml.classes import Column, Enum  # noqa: E402
 PID = 'C05'
 THEOREMS = ['PyDBML.C05.build_refs_in_range', 'PyDBML.C05.locateTable_in_range', 'PyDBML.C05.locateCols_in_range',
             'PyDBML.C05.findKey_in_range',
-            'PyDBML.C05.resolveType_sound', 'PyDBML.C05.resolveType_complete', 'PyDBML.C05.locateCols_sound', 'PyDBML.C05.buildRef_sound']
-MODULES = ['PyDBMLProofs.Props.C05', 'PyDBMLProofs.Props.C05Link']
+            'PyDBML.C05.resolveType_sound', 'PyDBML.C05.resolveType_complete', 'PyDBML.C05.locateCols_sound', 'PyDBML.C05.buildRef_sound',
+            'PyDBML.C02.ColForm.buildRef_ok', 'PyDBML.C02.foldlM_groupStep', 'PyDBML.C02.flags_document_roundtrip_partial']
+MODULES = ['PyDBMLProofs.Props.C05', 'PyDBMLProofs.Props.C05Link', 'PyDBMLProofs.Props.C02FormRefs', 'PyDBMLProofs.Props.C02Group',
+           'PyDBMLProofs.Props.C02Document']
 
 
 def isin(x, lst):
